@@ -59,7 +59,10 @@ def scalar_expr(ctx, depth=2, allow_none=True):
         p = d(st.sampled_from(SCALAR_VARS + ["id", "x"]))
         return ["lambda", [p], d(st.sampled_from([
             ["var", p], ["binop", "==", ["var", p], ["var", "s0"]],
-            ["call", "str", [["var", p]]]])), [scalar_expr(ctx, depth - 1)]]
+            ["call", "str", [["var", p]]],
+            # an inner function that reads the outer function's parameter
+            ["lambda", ["lz"], ["call", "str", [["var", p]]],
+             [["const", "1"]]]])), [scalar_expr(ctx, depth - 1)]]
     if choice == 13:
         return ["call", "len", [["listcomp", ["var", "cx"], "cx",
                                  ["const", d(st.sampled_from(
